@@ -655,6 +655,11 @@ class Manager:
                 self.stop()
             except SystemExit as e:
                 self.stop(e.code)
+                if e.code is not None:
+                    # stop() does nothing on a manager that is not running
+                    # any more (e.g. the handler itself called stop(code)):
+                    # the exit code must still reach the caller of run()
+                    raise
             except BaseException:
                 value = err = _exc_info()
                 event.value.errors = True
@@ -869,6 +874,8 @@ class Manager:
             self.stop()
         except SystemExit as e:
             self.stop(e.code)
+            if e.code is not None:
+                raise
         except BaseException:
             self._currently_handling = handling
             self.unregisterTask((event, task, parent))
